@@ -474,9 +474,27 @@ fn coord_case(cops: &[CoOp], kk: u64, tt: u64, ptmo: u64, dist: &mut Dist) -> (S
 
 fn gen_coord(r: &mut Rng, kk: u64, tt: u64, len: usize) -> Vec<CoOp> {
     let mut v = vec![CoOp::Begin(r.range(1, 3))];
+    let mut begun = 1u64;
     for _ in 0..len {
         let k = r.below(100);
         let t = r.range(1, tt);
+        // protocol-order snippet for a fresh one-shard transaction: begin, prepare, (duplicate prepare), vote, decide
+        if k < 14 && begun < tt {
+            begun += 1;
+            let me = begun;
+            v.push(CoOp::Begin(1));
+            v.push(CoOp::Prepare(me, 0, gen_keys(r, kk, 3)));
+            if r.chance(1, 4) {
+                v.push(CoOp::Prepare(me, 0, gen_keys(r, kk, 2)));
+            }
+            v.push(CoOp::Vote(me, 0));
+            v.push(match r.below(4) {
+                0 => CoOp::Abort(me),
+                1 => CoOp::Advance(5001),
+                _ => CoOp::Commit(me),
+            });
+            continue;
+        }
         v.push(if k < 12 {
             CoOp::Begin(r.range(1, 3))
         } else if k < 42 {
